@@ -116,7 +116,11 @@ func runC02(c *Ctx) {
 	var flagPhi ssa.Value
 	allInstrs(ins, func(in ssa.Instruction) {
 		bo, ok := in.(*ssa.BinOp)
-		if !ok || bo.Op != token.GTR || !isConstInt(bo.Y, 0) {
+		if !ok {
+			return
+		}
+		// any test that separates 0 from the positive values: > 0, <= 0, != 0, == 0, >= 1, < 1
+		if k, isK := constInt(bo.Y); !isK || !((k == 0 && (bo.Op == token.GTR || bo.Op == token.LEQ || bo.Op == token.NEQ || bo.Op == token.EQL)) || (k == 1 && (bo.Op == token.GEQ || bo.Op == token.LSS))) {
 			return
 		}
 		var ls []ssa.Value
@@ -209,7 +213,7 @@ func runC02(c *Ctx) {
 	}
 	// (d) rebuild — in the insertion itself or in a helper it calls on the way back up
 	var rw *ssa.Call
-	host := ins           // the function containing the rebuild
+	host := ins            // the function containing the rebuild
 	var hostCall *ssa.Call // the call of the helper inside the insertion (nil when host == ins)
 	allInstrs(ins, func(in ssa.Instruction) {
 		if call, ok := in.(*ssa.Call); ok && staticCallee(&call.Call) == rewrite {
@@ -259,7 +263,7 @@ func runC02(c *Ctx) {
 		guardBlock = hostCall.Block()
 	}
 	for _, cm := range cmpsAt(guardBlock) {
-		if cm.X == flagPhi && isConstInt(cm.Y, 0) && cm.Op == token.GTR {
+		if cm.X == flagPhi && ((isConstInt(cm.Y, 0) && (cm.Op == token.GTR || cm.Op == token.NEQ)) || (isConstInt(cm.Y, 1) && cm.Op == token.GEQ)) {
 			under = true
 		}
 	}
@@ -333,6 +337,10 @@ func runC02(c *Ctx) {
 		allInstrs(ins, func(in ssa.Instruction) {
 			ret, ok := in.(*ssa.Return)
 			if !ok || len(ret.Results) <= flagIdx {
+				return
+			}
+			if ret.Results[0] == ssa.Value(rw) && isConstInt(ret.Results[flagIdx], 0) {
+				retOK = true // return rewrite(…), …, 0, …
 				return
 			}
 			ph0, ok0 := ret.Results[0].(*ssa.Phi)
